@@ -118,6 +118,9 @@ func parent() {
 				for _, v := range res.Viols {
 					r.Violation(v.Sig, v.What, v.Detail)
 				}
+				for k, v := range res.Counts {
+					r.Count(k, v)
+				}
 				continue
 			}
 			executed++
@@ -160,11 +163,13 @@ func parent() {
 			}
 		}
 	}
-	r.Floor("hostile_messages_executed", executed, n*95/100)
-	for _, s := range allStates {
-		r.Floor("messages_in_state_"+stateNames[s], int(r.Counter("state:"+stateNames[s])), n/40)
+	if r.Counter("cases_not_run_after_a_confirmed_missing_answer") == 0 {
+		r.Floor("hostile_messages_executed", executed, n*95/100)
+		for _, s := range allStates {
+			r.Floor("messages_in_state_"+stateNames[s], int(r.Counter("state:"+stateNames[s])), n/40)
+		}
+		r.Floor("distinct_(state,endpoint,class)", r.DistinctN("(state,endpoint,class)"), 250)
 	}
-	r.Floor("distinct_(state,endpoint,class)", r.DistinctN("(state,endpoint,class)"), 250)
 	if r.ViolationCount() == 0 {
 		// on a tree without defects every continuation and health check must have run and passed
 		r.Floor("same_connection_continuations_ok", int(r.Counter("same_connection:ok")), n/2)
